@@ -23,7 +23,7 @@ INVARIANTS %(invs)s
 CHECK_DEADLOCK FALSE
 """
 
-OWNER = {"Inv_C07_Truth": "C07", "Act_C07_Closer": "C07", "Inv_C10_Chain": "C07", "Inv_C08_Stack": "C08",
+OWNER = {"Inv_C01_Local": "C01", "Inv_C01_NotAsked": "C01", "Inv_C07_Truth": "C07", "Act_C07_Closer": "C07", "Inv_C10_Chain": "C10", "Inv_C08_Stack": "C08",
          "Inv_C08_Supplied": "C08", "Live_C08_Ends": "C08", "temporal": "C08", "Inv_C18_Family": "C18"}
 
 
@@ -44,7 +44,7 @@ def consistent_config(r, depth, families, protocol, glue="mixed", nservers=2, ma
     # every zone is reachable in the given mode when every host has an address of a usable family
     reachable = families == "dual" or protocol.startswith("prefer") or mode == "forwarding"
     return {"universe": u["universe"], "zones": [u["hints"]], "protocol": protocol, "questions": qs, "mode": mode,
-            "expect_truth": reachable,
+            "expect_truth": reachable, "names": [list(n) for n in u["names"]], "hostaddrs": u["hostaddrs"],
             "kind": "%s, consistent depth %d %s %s glue=%s" % (mode, depth, families, protocol, glue)}
 
 
@@ -67,15 +67,75 @@ def hostile_config(r, depth, protocol):
     z["recs"] += [rc.rr(["ghost"] + a, "NS", rc.dotted(["ns", "nowhere"]), ["ns", "nowhere"], ttl=3600),
                   rc.rr(["noglue"] + a, "NS", rc.dotted(["ns", "noglue"] + a), ["ns", "noglue"] + a, ttl=3600)]
     qs += [{"name": ["www", "ghost"] + a, "type": "A"}, {"name": ["www", "noglue"] + a, "type": "A"}]
-    # a lame zone: nobody serves it any more
-    lame = list(r.choice(leafs))
+    # a delegation to a name server that lives in another zone (its address has to be looked up) and serves nothing here
+    far = [h["host"] for h in u["hostaddrs"] if h["host"][-len(a):] != a and h["host"][-1] != "root-servers"]
+    if far:
+        hb = far[0]
+        z["recs"].append(rc.rr(["ext"] + a, "NS", rc.dotted(hb), hb, ttl=3600))
+        qs.append({"name": ["www", "ext"] + a, "type": "A"})
+    # a lame zone: nobody serves it any more (not the zone with the loops, nor one above it)
+    cands = [list(x) for x in leafs if list(x) != a and a[-len(x):] != list(x)]
+    lame = r.choice(cands) if cands else ["nonexistent"]
     for s in uni["servers"]:
         s["apexes"] = [x for x in s["apexes"] if x != lame]
     uni["servers"] = [s for s in uni["servers"] if s["apexes"]]
     if len(qs) > 40:
-        qs = qs[-12:] + r.sample(qs[:-12], 28)
+        qs = qs[-14:] + r.sample(qs[:-14], 26)
     return {"universe": uni, "zones": [u["hints"]], "protocol": protocol, "questions": qs, "expect_truth": False,
-            "mode": "recursive", "kind": "hostile depth %d %s lame=%s" % (depth, protocol, ".".join(lame))}
+            "names": [list(n) for n in u["names"]], "hostaddrs": u["hostaddrs"], "mode": "recursive", "kind": "hostile depth %d %s lame=%s" % (depth, protocol, ".".join(lame))}
+
+
+def local_config(r, depth, protocol, mode="recursive"):
+    """local data next to the hints: an authoritative zone the universe does not know (with an alias out to a universe
+    name and a delegation), an authoritative zone shadowing a universe zone with other data, and override records
+    (hosts-file style, in the non-authoritative root zone) for universe names.  No alias of the universe leads into
+    a locally owned name (that is known finding F13)."""
+    u = rc.build_universe(r, depth=depth, nservers=2, families="dual", glue="mixed")
+    leafs = [z["apex"] for z in u["universe"]["zones"] if len(z["apex"]) >= 2] or [z["apex"] for z in u["universe"]["zones"] if z["apex"]]
+    tgt = r.choice(leafs)
+    shadow = r.choice(leafs)
+    aliased = set()
+    for z in u["universe"]["zones"]:
+        for x in z["recs"]:
+            if x["type"] == "CNAME":
+                aliased.add(tuple(x["target"]))
+    lan = rc.zone(["lan"], [rc.rr(["www", "lan"], "A", "192.168.0.1"), rc.rr(["www", "lan"], "A", "192.168.0.2"),
+                            rc.rr(["out", "lan"], "CNAME", rc.dotted(["www"] + tgt), ["www"] + tgt),
+                            rc.rr(["in", "lan"], "CNAME", "www.lan.", ["www", "lan"]),
+                            rc.rr(["wild", "lan"], "TXT", "x01", wild=True),
+                            # a delegation out of the local zone, to a name server that serves nothing
+                            rc.rr(["ext", "lan"], "NS", "gw.lan.", ["gw", "lan"], ttl=3600),
+                            rc.rr(["gw", "lan"], "A", "10.77.0.1", ttl=3600), rc.rr(["gw", "lan"], "AAAA", "fd00::77:1", ttl=3600),
+                            # aliases into a second authoritative local zone NESTED below this one
+                            rc.rr(["cam", "lan"], "CNAME", "cam1.iot.lan.", ["cam1", "iot", "lan"]),
+                            rc.rr(["nocam", "lan"], "CNAME", "gone.iot.lan.", ["gone", "iot", "lan"])])
+    iot = rc.zone(["iot", "lan"], [rc.rr(["cam1", "iot", "lan"], "A", "192.168.7.1"), rc.rr(["cam1", "iot", "lan"], "A", "192.168.7.2")],
+                  minimum=120)
+    zones = [lan, iot]
+    qs = [{"name": ["www", "lan"], "type": "A"}, {"name": ["out", "lan"], "type": "A"}, {"name": ["in", "lan"], "type": "A"},
+          {"name": ["nope", "lan"], "type": "A"}, {"name": ["www", "lan"], "type": "TXT"}, {"name": ["a", "wild", "lan"], "type": "TXT"},
+          {"name": ["out", "lan"], "type": "TXT"}, {"name": ["cam", "ext", "lan"], "type": "A"},
+          {"name": ["www", "lan"], "type": "ANY"}, {"name": ["cam", "lan"], "type": "A"}, {"name": ["cam", "lan"], "type": "TXT"},
+          {"name": ["nocam", "lan"], "type": "A"}, {"name": ["cam1", "iot", "lan"], "type": "A"}]
+    if tuple(["www"] + shadow) not in aliased and tuple(["txt"] + shadow) not in aliased:
+        zones.append(rc.zone(shadow, [rc.rr(["www"] + shadow, "A", "10.66.0.1"), rc.rr(["only"] + shadow, "TXT", "x02")]))
+        qs += [{"name": ["www"] + shadow, "type": "A"}, {"name": ["txt"] + shadow, "type": "TXT"},
+               {"name": ["only"] + shadow, "type": "TXT"}, {"name": ["www"] + shadow, "type": "AAAA"}]
+    hints = copy.deepcopy(u["hints"])
+    over = [a for a in leafs if a != shadow and tuple(["txt"] + a) not in aliased]
+    for a in over[:2]:
+        hints["recs"].append(rc.rr(["txt"] + a, "A", "0.0.0.0"))         # blocklist entry for a name the universe knows
+        qs += [{"name": ["txt"] + a, "type": "A"}, {"name": ["txt"] + a, "type": "TXT"}, {"name": ["txt"] + a, "type": "ANY"}]
+    # ... and for a name the universe holds OTHER records of the same type for (an ANY answer from upstream carries them)
+    for a in [x for x in leafs if x != shadow and tuple(["www"] + x) not in aliased][:1]:
+        hints["recs"].append(rc.rr(["www"] + a, "A", "0.0.0.0"))
+        qs += [{"name": ["www"] + a, "type": "A"}, {"name": ["www"] + a, "type": "ANY"}, {"name": ["www"] + a, "type": "AAAA"}]
+    zones.append(hints)
+    uq = dedup_questions(u["questions"])
+    qs = dedup_questions(qs + r.sample(uq, min(len(uq), 10)))
+    return {"universe": u["universe"], "zones": zones, "protocol": protocol, "questions": qs, "mode": mode,
+            "names": [list(n) for n in u["names"]], "hostaddrs": u["hostaddrs"],
+            "expect_truth": False, "kind": "%s, local zones lan. + %s + overrides, depth %d %s" % (mode, rc.dotted(shadow), depth, protocol)}
 
 
 def plans(r, tier):
@@ -88,6 +148,8 @@ def plans(r, tier):
         out.append((consistent_config(r, 2, "dual", r.choice(P), max_questions=16), 2, 0, 1))
         out.append((hostile_config(r, 2, r.choice(P)), 1, 2, 0))
         out.append((consistent_config(r, 2, "dual", "prefer-v4", max_questions=30, mode="forwarding"), 2, 1, 1))
+        out.append((local_config(r, 2, r.choice(P), mode="recursive"), 2, 1, 0))
+        out.append((local_config(r, 2, r.choice(P), mode="forwarding"), 2, 1, 0))
     else:
         for i in range(6):
             out.append((consistent_config(r, r.choice([2, 3, 3, 4]), r.choice(["mixed", "dual"]), r.choice(P),
@@ -100,21 +162,31 @@ def plans(r, tier):
             out.append((hostile_config(r, r.choice([2, 3]), r.choice(P)), 2, 2, 1))
         for i in range(2):
             out.append((consistent_config(r, r.choice([2, 3]), "dual", "prefer-v4", max_questions=40, mode="forwarding"), 3, 2, 1))
+        for mode in ("recursive", "forwarding", "recursive"):
+            out.append((local_config(r, r.choice([2, 3]), r.choice(P), mode=mode), 2, 1, 1))
     return out
 
 
-def model_check(v, pid, wd, r, tier):
+def model_check(v, pid, wd, r, tier, only=None, plan=None):
     """MCRecursive over the planned universes with the invariants of every property (one exploration serves all);
     a violated invariant is reported by the check that owns it."""
-    invs = "Inv_C07_Truth Inv_C10_Chain Inv_C08_Stack Inv_C08_Supplied Inv_C18_Family"
+    invs = "Inv_C01_Local Inv_C01_NotAsked Inv_C07_Truth Inv_C10_Chain Inv_C08_Stack Inv_C08_Supplied Inv_C18_Family"
     props = "PROPERTIES Act_C07_Closer Live_C08_Ends"
     runs = []
-    for (cfg, ask, faults, forget) in plans(r, tier):
+    seen = v.notes.setdefault("model_locations_and_outcomes_reached", [])
+    for (cfg, ask, faults, forget) in (plan if plan is not None else plans(r, tier)):
+        if only and not any(o in cfg["kind"] for o in only):
+            continue
+        witness = "hostile" in cfg["kind"] and ask == 1          # a small exploration: print what it reaches
         path = os.path.join(wd, "mcrec-config.ndjson")
         write_ndjson(path, [cfg])
         res = tlc("MCRecursive", None, env={"CONFIG": path}, timeout=3000, xmx="10g", workers=8 if tier == "quick" else None,
-                  cfg_text=CFG % {"limit": 32, "ask": ask, "faults": faults, "forget": forget, "invs": invs, "props": props})
+                  cfg_text=CFG % {"limit": 32, "ask": ask, "faults": faults, "forget": forget,
+                                  "invs": invs + (" Inv_Witness" if witness else ""), "props": props})
         v.add_tlc(res)
+        for x in set(res.tagged_raw("PC")) | set(res.tagged_raw("OUT")):
+            if x not in seen:
+                seen.append(x)
         runs.append({"universe": cfg["kind"], "zones": len(cfg["universe"]["zones"]), "questions": len(cfg["questions"]),
                      "MaxAsk": ask, "MaxFaults": faults, "MaxForget": forget, "distinct_states": res.distinct,
                      "depth": res.depth, "wall_s": round(res.wall, 1)})
@@ -129,6 +201,14 @@ def model_check(v, pid, wd, r, tier):
         elif not res.ok:
             raise vlib.ToolError("MCRecursive: " + str(res.error)[:2000])
     v.notes["model_runs"] = runs
+    if any("hostile" in x["universe"] and x["MaxAsk"] == 1 for x in runs):
+        core = ['"R", "enter"', '"R", "loop", TRUE', '"R", "udp"', '"R", "tcp"', '"DeadEnd"', 'TRUE, "NonAuthoritative"']
+        more = ['"R", "loop", FALSE', '"R", "wait_ip"', '"R", "wait_cname"', '"I", "next"', '"I", "wait"', '"DuplicateQuestion"']
+        missing = [n for n in core if not any(n in x for x in seen)]
+        if missing:
+            raise vlib.ToolError("vacuous model exploration: never reached %s" % missing)
+        v.notes["model_locations_not_reached_in_the_witness_run"] = [n for n in more if not any(n in x for x in seen)]
+    seen.sort()
     return runs
 
 
@@ -153,6 +233,58 @@ def conformance(v, wd, lines, chunk=60):
             accepted.add(part[int(x.strip()) - 1])
     v.transitions += gen
     missing = [i for i in elig if i not in accepted]
-    v.notes["model_conformance"] = {"scenarios": len(elig), "accepted_as_model_behaviours": len(accepted),
-                                    "not_accepted_scenarios": missing[:20]}
+    mc = v.notes.setdefault("model_conformance", {"scenarios": 0, "accepted_as_model_behaviours": 0, "not_accepted": []})
+    mc["scenarios"] += len(elig)
+    mc["accepted_as_model_behaviours"] += len(accepted)
+    mc["not_accepted"] += [{"tag": lines[i].get("tag", ""), "mode": lines[i]["mode"], "questions": [x["q"] for x in lines[i]["runs"]]}
+                           for i in missing[:5]]
     return len(elig), len(accepted), missing
+
+
+def explore(v, pid, wd, r, tier, only=None):
+    """one plan, three uses: TLC explores the state machine in each configuration (MC); the real resolver is run in
+    the same configurations (GEN) and validated against the declarative properties; its runs are validated as
+    behaviours of the state machine (TV)."""
+    plan = plans(r, tier)
+    model_check(v, pid, wd, r, tier, only=only, plan=plan)
+    lines = replay(v, pid, wd, r, tier, only=only, plan=plan)
+    conformance(v, wd, lines, chunk=200)
+    return lines
+
+
+def replay(v, pid, wd, r, tier, only=None, name="mcreplay", plan=None):
+    """GEN direction for MCRecursive: the configurations the model was explored in are given to the REAL resolver -
+    every question on a fresh cache, and seeded pairs / triples of questions sharing the cache - with the upstream
+    scripted from the same universe (ReplyTable).  The runs are validated like every other recorded resolution
+    (ResolveTrace: the declarative properties; RecursiveTrace: behaviour of the state machine)."""
+    cfgs = [c for (c, _, _, _) in (plan if plan is not None else plans(r, tier))
+            if not only or any(o in c["kind"] for o in only)]
+    items = []
+    for c in cfgs:
+        names = {tuple(n) for n in c["names"]} | {tuple(q["name"]) for q in c["questions"]}
+        for z in c["zones"]:
+            for x in z["recs"]:
+                names.add(tuple(x["name"]))
+                if x["target"]:
+                    names.add(tuple(x["target"]))
+        types = sorted({q["type"] for q in c["questions"]} | {"A", "AAAA"})
+        addrs = ["10.9.9.9"] if c["mode"] == "forwarding" else [s["addr"] for s in c["universe"]["servers"]]
+        items.append({"universe": c["universe"], "forwarder_ip": "10.9.9.9",
+                      "ask": [{"addr": a, "name": list(n), "type": t} for a in addrs for n in sorted(names) for t in types]})
+    tables = rc.reply_tables(wd, items)
+    scs = []
+    for c, tab in zip(cfgs, tables):
+        entries = rc.table_entries(tab)
+        seqs = [[q] for q in c["questions"]]
+        for _ in range(12 if tier == "quick" else 60):
+            seqs.append([dict(q) for q in r.sample(c["questions"], min(len(c["questions"]), r.choice([2, 2, 3])))])
+        for qs in seqs:
+            # C07 is stated for consistent hierarchies: a hostile universe scripts the upstream but is not handed to
+            # the validation as "the hierarchy" (its lame servers serve no zone at all, so "strictly closer" is void)
+            uni = None if c["kind"].startswith("hostile") else c["universe"]
+            scs.append(rc.scenario(c["zones"], [], c["mode"], [dict(q) for q in qs], table=entries, default={"rcode": 5},
+                                   protocol=c["protocol"], port=53, universe=uni, expect_truth=c["expect_truth"] and uni is not None,
+                                   hostaddrs=c["hostaddrs"], tag="mc-config: " + c["kind"]))
+    lines, rejects = rc.run_scenarios(v, pid, wd, name, scs, chunk=150)
+    v.notes["model_configurations_replayed_into_the_real_resolver"] = {"configurations": len(cfgs), "scenarios": len(scs)}
+    return lines
